@@ -1,5 +1,6 @@
 //! Correspondence harness: drives the real worterbuch code with the same cases the Coq model is
 //! evaluated on and prints canonical observations, one line per operation.
+mod auth_engine;
 mod codec_engine;
 mod core_engine;
 mod util;
@@ -14,6 +15,7 @@ fn main() {
     match args[1].as_str() {
         "core" => core_engine::main(&args[2], &args[3]),
         "codec" => codec_engine::main(&args[2], &args[3]),
+        "auth" => auth_engine::main(&args[2], &args[3]),
         other => {
             eprintln!("unknown engine {other}");
             std::process::exit(2);
